@@ -24,8 +24,8 @@ use std::time::Instant;
 
 use rustfmt_nightly::verif;
 use rustfmt_nightly::{
-    Config, EmitMode, FileLines, FileName, FormatReportFormatterBuilder, Input, Range, Session,
-    Verbosity,
+    CliOptions, Config, Edition, EmitMode, FileLines, FileName, FormatReportFormatterBuilder,
+    Input, Range, Session, StyleEdition, Verbosity, Version, load_config,
 };
 use serde_json::{Value, json};
 
@@ -81,6 +81,38 @@ fn wants(job: &Value, what: &str) -> bool {
         .unwrap_or(false)
 }
 
+/// The options a front end resolves BEFORE the configuration file is read (what
+/// `rustfmt --edition .. --style-edition .. --config version=..` hands to `load_config`).
+struct FrontOpts {
+    path: Option<PathBuf>,
+    edition: Option<Edition>,
+    style_edition: Option<StyleEdition>,
+    version: Option<Version>,
+}
+
+impl CliOptions for FrontOpts {
+    fn apply_to(self, config: &mut Config) {
+        if let Some(e) = self.edition {
+            config.set_cli().edition(e);
+        }
+        if let Some(e) = self.style_edition {
+            config.set_cli().style_edition(e);
+        }
+    }
+    fn config_path(&self) -> Option<&std::path::Path> {
+        self.path.as_deref()
+    }
+    fn edition(&self) -> Option<Edition> {
+        self.edition
+    }
+    fn style_edition(&self) -> Option<StyleEdition> {
+        self.style_edition
+    }
+    fn version(&self) -> Option<Version> {
+        self.version
+    }
+}
+
 fn handle(job: &Value, scratch: &PathBuf) -> Value {
     let mut src = job["src"].as_str().unwrap_or("").to_owned();
     if let Some(seed) = job["relayout"].as_u64() {
@@ -109,6 +141,32 @@ fn handle(job: &Value, scratch: &PathBuf) -> Value {
     }
     let mut config = Config::default();
     let mut bad_opts = vec![];
+    if job.get("toml").is_some() || job.get("cli").is_some() {
+        // the configuration as a front end resolves it: a configuration FILE (`toml`) and the
+        // three options that take part in choosing the defaults (`cli`: edition,
+        // style_edition, version), through the public `load_config`
+        use std::str::FromStr;
+        let dir = scratch.join(format!("cfg-{}", job["id"].as_u64().unwrap_or(0)));
+        let _ = std::fs::create_dir_all(&dir);
+        let file = dir.join("rustfmt.toml");
+        std::fs::write(&file, job["toml"].as_str().unwrap_or("")).unwrap();
+        let cli = &job["cli"];
+        let fo = FrontOpts {
+            path: Some(file),
+            edition: cli["edition"].as_str().and_then(|x| Edition::from_str(x).ok()),
+            style_edition: cli["style_edition"]
+                .as_str()
+                .and_then(|x| StyleEdition::from_str(x).ok()),
+            version: cli["version"].as_str().and_then(|x| Version::from_str(x).ok()),
+        };
+        match load_config(None, Some(fo)) {
+            Ok((c, _)) => config = c,
+            Err(e) => {
+                return json!({"id": job["id"], "ok": false, "err": format!("config: {e}"),
+                              "bad_opts": bad_opts});
+            }
+        }
+    }
     if let Some(opts) = job["opts"].as_object() {
         // fixed (sorted) application order
         let mut keys: Vec<&String> = opts.keys().collect();
